@@ -41,6 +41,8 @@ CONSTANTS Series, TimesRaw, TOff, Vals, Types, Apps,
                        \*   "KF-C20-1" Delete over out-of-order head samples (Head.Delete clamps to the in-order range,
                        \*              OOOCompactionHead carries no tombstones)
                        \*   "KF-C20-2" Delete of a sample that is only in blocks but would be re-appended by WAL replay
+                       \*   "KF-C20-4" CleanTombstones / Compact while a deleted sample below the newest in-order block's end is
+                       \*              still in the WAL (dropping the emptied block lets a restart replay it)
                        \*   "KF-C20-3" a Commit that stores an out-of-order sample inside an older head tombstone interval
                        \*   "KF-C01-5" a Commit that logs samples of a series whose series record may still be held back by
                        \*              another open appender (the record is logged later; replay drops the samples)
@@ -413,8 +415,17 @@ HeadLoop(st) ==
 \* out-of-order compaction: every out-of-order sample of the head goes to blocks, head OOO emptied
 OOOAll(s) == Range(ooh[s]) \cup oom[s]
 
+\* A block whose samples are all deleted is dropped by CleanTombstones / block compaction.  If it was the newest
+\* in-order block, minValidTime falls back at the next start and the WAL replays samples that had been deleted
+\* (KF-C20-4).  Without per-block structure the trigger is over-approximated: some deleted sample below the
+\* in-order block horizon is still in the WAL.
+DropRisk == \E s \in Series : \E x \in Range(wino[s]) :
+               x.t < blkMax /\ ~\E y \in stored[s] : y.t = x.t /\ Norm(y) = Norm(x)
+DropKF == IF DropRisk THEN {"KF-C20-4"} ELSE {}
+
 Compact ==
   /\ "Compact" \in Acts
+  /\ DropKF \subseteq AllowKF
   /\ NoOpenApp
   /\ hInit
   /\ LET st0 == [ino |-> ino, hdel |-> hdel, blk |-> blk, hMin |-> hMin, hMax |-> hMax, minValid |-> minValid, blkMax |-> blkMax, n |-> 0]
@@ -425,8 +436,9 @@ Compact ==
         /\ ooh' = IF doOOO THEN [s \in Series |-> <<>>] ELSE ooh
         /\ oom' = IF doOOO THEN [s \in Series |-> {}] ELSE oom
         /\ oghost' = IF doOOO THEN [s \in Series |-> oghost[s] \cup OOOAll(s)] ELSE oghost
-        /\ UNCHANGED <<hInit, oooSeen, app, stored, kfset>>
-        /\ Step([a |-> "Compact", nblocks |-> st1.n, exp |-> ExpAll(stored)])
+        /\ kfset' = kfset \cup DropKF
+        /\ UNCHANGED <<hInit, oooSeen, app, stored>>
+        /\ Step([a |-> "Compact", nblocks |-> st1.n, exp |-> ExpAll(stored), kf |-> IF DropRisk THEN "KF-C20-4" ELSE ""])
 
 CompactOOO ==
   /\ "CompactOOO" \in Acts
@@ -446,8 +458,10 @@ CompactOOO ==
 CleanTombstones ==
   /\ "CleanTombstones" \in Acts
   /\ NoOpenApp
-  /\ UNCHANGED <<hvars, blk, blkMax, oooSeen, app, stored, kfset>>
-  /\ Step([a |-> "CleanTombstones", exp |-> ExpAll(stored)])
+  /\ DropKF \subseteq AllowKF
+  /\ kfset' = kfset \cup DropKF
+  /\ UNCHANGED <<hvars, blk, blkMax, oooSeen, app, stored>>
+  /\ Step([a |-> "CleanTombstones", exp |-> ExpAll(stored), kf |-> IF DropRisk THEN "KF-C20-4" ELSE ""])
 
 Mmap ==
   /\ "Mmap" \in Acts
@@ -462,13 +476,15 @@ Reopen ==
   /\ LET mv == blkMax
          ino1 == [s \in Series |-> SelectSeq(wino[s], LAMBDA x : x.t >= mv)]
          its == UNION {{x.t : x \in Range(ino1[s])} : s \in Series}
-     IN /\ ino' = ino1 /\ wino' = ino1
+     IN /\ ino' = ino1 /\ UNCHANGED wino   \* the WAL keeps older records until a checkpoint drops them
         /\ htomb' = htomb
         /\ hdel' = hdel   \* tombstone records are replayed from the WAL like the samples they cover
         /\ minValid' = mv
-        /\ hInit' = (its # {})
-        /\ hMin' = IF its # {} THEN SetMin(its) ELSE PosInf
-        /\ hMax' = IF its # {} THEN SetMax(its) ELSE NegInf
+        \* DB.open -> reload -> Head.Truncate(inOrderBlocksMaxTime) initialises an empty head at the newest in-order
+        \* block's end before the WAL is replayed
+        /\ hInit' = (mv # NegInf \/ its # {})
+        /\ hMin' = IF mv # NegInf THEN mv ELSE IF its # {} THEN SetMin(its) ELSE PosInf
+        /\ hMax' = IF its # {} THEN Max2(SetMax(its), mv) ELSE mv
         /\ oom' = [s \in Series |-> oom[s] \cup oghost[s]]
         /\ UNCHANGED <<ooh, oghost, blk, blkMax, oooSeen, app, stored, kfset>>
         /\ Step([a |-> "Reopen", exp |-> ExpAll(stored)])
